@@ -9,7 +9,7 @@
 From Coq Require Import List NArith Arith Bool Lia.
 From GmsmVerif Require Import Lib.Outcome Gen.TLSSuites Resume.ResumeModel
   Agree.AgreeModel Agree.AgreeSpec Agree.KeyModel Agree.AgreeProofs Agree.AgreeSweep
-  Agree.DataModel Agree.DataProofs SM3.HMACSpec Agree.PrfSM3.
+  Agree.DataModel Agree.DataProofs SM3.HMACSpec Agree.WireSpec Agree.PrfSM3.
 Import ListNotations.
 Close Scope N_scope.
 
@@ -80,6 +80,12 @@ Theorem C06_prf_sm3_is_p_hash :
     prf12 hmac_sm3 fuel n secret label seed = Ok (PRF_spec hmac_sm3 n secret label seed).
 Proof. exact prf12_sm3_is_P_SM3. Qed.
 Print Assumptions C06_prf_sm3_is_p_hash.
+
+(* the PRF evaluated by the independent decoder (Agree/WireSpec.v) is that specification *)
+Theorem C06_decoder_prf_is_spec :
+  forall n secret label seed, gm_prf n secret label seed = PRF_spec hmac_sm3 n secret label seed.
+Proof. exact gm_prf_is_spec. Qed.
+Print Assumptions C06_decoder_prf_is_spec.
 
 (* 4. Application data: for every sequence of Write calls (any sizes, including empty ones), with or without
    the 1/n-1 split, every record-size schedule between 1 and maxPlaintext (dynamic record sizing), every
